@@ -16,6 +16,7 @@ import Alos2.Proofs.ImageIO
 import Alos2.Proofs.ProductOpen
 import Alos2.Proofs.FailStop
 import Alos2.Proofs.MissingFiles
+import Alos2.Proofs.ProductCached
 
 namespace Alos2.C18
 
@@ -99,5 +100,13 @@ theorem trailer_never_read (fs fs' : Files) (rpc : Nat) (sm : List (String × SG
     (hdistinct : trl ≠ "summary.txt" ∧ trl ≠ vol ∧ trl ≠ led ∧ trl ∉ imgs) :
     openProduct fs' rpc = openProduct fs rpc :=
   openProduct_trailer_never_read fs fs' rpc sm vol led trl imgs h hsame hdistinct
+
+/-- with index files in play (`Model/ProductCached.lean`): a product whose summary / volume directory / leader step fails, fails
+    with the SAME error whatever index files exist and whatever the cache options — no index file can make such a product open —
+    and no index file is touched -/
+theorem head_error_with_caches (fr : FloatRepr) (loads : List Char → Except Err PyVal) (root : String) (fs : Files)
+    (e : Err) (hh : openProductHead fs = .error e) (c : Caches) (use create : Bool) (rpc : Nat) :
+    openProductCached fr loads root fs c use create rpc = (.error e, c) :=
+  openProductCached_head_error fr loads root fs e hh c use create rpc
 
 end Alos2.C18
